@@ -283,6 +283,8 @@ pub fn vf_db_tw<F1: Fn(&(Vec<u8>, Vec<u8>)) -> bool>(it: DbIter, f1: F1) -> (r: 
             && (forall|e: (Vec<u8>, Vec<u8>)| call_ensures(f1, (&e,), #[trigger] p1(e)))
             && (forall|e: (Vec<u8>, Vec<u8>)| #[trigger] p2(e)),
 { unimplemented!() }
+pub assume_specification[ u32::max_value ]() -> (r: u32) ensures r == 0xffff_ffffu32;
+pub assume_specification[ u64::max_value ]() -> (r: u64) ensures r == 0xffff_ffff_ffff_ffffu64;
 // [u8]::to_vec (assumed)
 pub assume_specification<T: Clone>[ <[T]>::to_vec ](s: &[T]) -> (r: Vec<T>)
     ensures r@.len() == s@.len(), forall|i: int| 0 <= i < s@.len() ==> vstd::pervasive::cloned::<T>(#[trigger] s@[i], r@[i]);
